@@ -1,7 +1,9 @@
 package props
 
 import (
+	"regexp"
 	"strings"
+	"sync/atomic"
 
 	"github.com/microcosm-cc/bluemonday"
 	"golang.org/x/net/html"
@@ -77,7 +79,37 @@ func attrKey(a html.Attribute) string {
 	return a.Key
 }
 
+// antagonise builds other instances of the shipped policies and extends them heavily, the way
+// README-style callers do. A freshly constructed shipped policy must not be affected.
+func antagonise() {
+	q := bluemonday.UGCPolicy()
+	q.AllowAttrs("style", "onclick", "onerror", "formaction").OnElements("p", "span", "div", "b", "i", "h1", "li", "td", "a", "img")
+	q.AllowAttrs("style", "onload").Globally()
+	q.AllowElements("script", "style", "iframe", "object", "embed", "form", "input", "base", "meta", "link")
+	q.AllowAttrs("src", "href", "action").OnElements("iframe", "embed", "form", "base", "link", "script")
+	q.AllowURLSchemes("javascript", "data", "vbscript")
+	q.AllowElementsContent("script", "style", "iframe", "object", "title")
+	q.AllowNoAttrs().OnElements("a", "img", "iframe", "form")
+	q.AllowStyles("color", "background").Globally()
+	q.AllowDataAttributes()
+	q.AllowComments()
+	q.AllowElementsMatching(regexp.MustCompile(`.*`))
+	q.RequireParseableURLs(false)
+	q.RequireNoFollowOnLinks(false)
+	q.Sanitize(`<p style="x" onclick="y"><a>z</a><script>1</script><iframe src="javascript:1"></iframe><!-- c -->`)
+	s := bluemonday.StrictPolicy()
+	s.AllowElements("b", "script", "p")
+	s.AllowAttrs("onclick").Globally()
+	s.AllowComments()
+	s.Sanitize(`<b onclick="x">y</b><!-- c -->`)
+}
+
+var antagoniseCount atomic.Int64
+
 func checkC04(c *Case, r *Rec) error {
+	if antagoniseCount.Add(1)%40 == 1 {
+		antagonise()
+	}
 	in := string(c.Input)
 	switch c.Kind {
 	case "strict":
@@ -269,7 +301,9 @@ func genC20(t *rapid.T) *Case {
 		c.Spec = &Spec{Base: "UGC"}
 	default:
 		// New-based spec built op by op, dropping ops that leave the class (construction)
-		spec := genSpec(t, &SpecOpts{Bases: []string{"New"}})
+		kinds := append([]string{}, defaultOpKinds...)
+		kinds = append(kinds, "RequireCrossOriginAnonymous", "RequireCrossOriginAnonymous", "AllowImages", "AllowImages", "AllowIFrames", "RequireSandboxOnIFrame", "AllowStandardURLs", "AllowTables", "AllowLists")
+		spec := genSpec(t, &SpecOpts{Bases: []string{"New"}, Kinds: kinds})
 		kept := &Spec{Base: "New"}
 		dropped := 0
 		for _, op := range spec.Ops {
@@ -297,7 +331,24 @@ func genC20(t *rapid.T) *Case {
 		c.Input = BStr(genLinkElements(t))
 		return c
 	}
-	switch rapid.IntRange(0, 6).Draw(t, "inputKind") {
+	switch rapid.IntRange(0, 8).Draw(t, "inputKind") {
+	case 8:
+		// media elements whose only attributes are URLs (good and bad) and forced attributes
+		var sb strings.Builder
+		for i := rapid.IntRange(1, 4).Draw(t, "nmedia"); i > 0; i-- {
+			el := rapid.SampledFrom([]string{"img", "audio", "video", "link", "iframe", "a", "source"}).Draw(t, "mel")
+			sb.WriteString("<" + el + " " + urlPos[el] + `="` + escAttr(rapid.SampledFrom(urlVals).Draw(t, "murl"), '"') + `"`)
+			if rapid.IntRange(0, 2).Draw(t, "mextra") == 0 {
+				sb.WriteString(" " + rapid.SampledFrom([]string{`crossorigin="use-credentials"`, `sandbox="allow-scripts x"`, `alt="a"`, `rel="x"`, `target="_blank"`}).Draw(t, "mattr"))
+			}
+			sb.WriteString(">t")
+		}
+		c.Input = BStr(sb.String())
+	case 7:
+		// a long run of characters that grow when escaped: the first pass's output is much larger
+		unit := rapid.SampledFrom([]string{`"`, `&`, `'`, `<`, `&amp;`, `a"b`}).Draw(t, "grow")
+		n := rapid.IntRange(1, 40000/len(unit)).Draw(t, "growreps")
+		c.Input = BStr("<p>" + strings.Repeat(unit, n) + "</p>" + genSoup(t, m, &soupOpts{maxFrags: 3}))
 	case 6:
 		c.Input = BStr(genCorpusMutation(t))
 	case 0:
